@@ -693,4 +693,78 @@ theorem presenceKept_of_data {P P' : Prog} {e : Nat} {out : ShakeOut} (h : treeS
   | tuple t => exact hd _ _ rfl hc hp
   | res r => exact hd _ _ rfl hc hp
 
+/-! ### The hypotheses of `treeShake_preserves_behaviour_computed`, decided per instance (driver) -/
+
+def progNames (P : Prog) : List String :=
+  (P.types.toList.flatMap (fun τ => match τ with
+    | .part n fs => n.toList ++ fs.map (·.1)
+    | .resource n => [n]
+    | .var n => [n]
+    | _ => [])) ++
+  (P.tuples.toList.flatMap (fun T => T.name.toList ++ T.fields.filterMap (·.1))) ++ P.resources.toList
+
+/-- an interning that is injective on the names of the program (position in its name list) -/
+def internIn (names : List String) (s : String) : Nat := names.idxOf s
+
+/-- every tag whose ids are inside the program's tables (the tags `compute_*_compatibility` iterates over) -/
+def progTags (P : Prog) : List Tag :=
+  [.int, .bin, .ref] ++ (List.range P.tuples.size).map .tuple ++ (List.range P.fns.size).map .fn ++
+    (List.range P.builtins.size).map .builtin ++ (List.range P.fns.size).map .proc ++
+    (List.range P.resources.size).map .res
+
+/-- `TablesComputed` on every tag in range -/
+def tablesComputedB (ι : String → Nat) (fuel : Nat) (P : Prog) : Bool :=
+  let inp := toCInput ι P
+  let idx := TypeIndex.build inp.table
+  let tags := progTags P
+  let ok (pat : Nat) (row : Tag → Bool) : Bool :=
+    tags.all (fun c => tagAccepts inp idx fuel pat (tagTo c) == some (row c))
+  let ops := (P.fns.toList.flatMap (fun F => isTypeOps F.instrs)).eraseDups
+  ops.all (fun t => ok t (P.isCompat t)) &&
+  (List.range P.fns.size).all (fun f =>
+    match P.fns[f]? with
+    | some F =>
+      match P.types[F.typeId]? with
+      | some (.callable p _ _) => ok p (P.msgCompatFn f)
+      | _ => true
+    | none => true) &&
+  (List.range P.builtins.size).all (fun b =>
+    match P.builtins[b]? with
+    | some B => ok B.paramType (P.msgCompatBuiltin b)
+    | none => true)
+
+def presenceKeptB (ρ : Ren) (P P' : Prog) : Bool :=
+  (progTags P).all (fun c =>
+    match renameTag ρ c with
+    | some c' => !P.tagPresent c || P'.tagPresent c'
+    | none => true)
+
+def fnTypesCallableB (P : Prog) : Bool :=
+  P.fns.toList.all (fun F => match P.types[F.typeId]? with | some (.callable _ _ _) => true | _ => false)
+
+/-- all hypotheses about the pair (original `P` with its tables, shaken `P'` as loaded with its tables) -/
+def shakeHypotheses (fuel : Nat) (P P' : Prog) (e : Nat) : String :=
+  match treeShake P e with
+  | none => "none"
+  | some out =>
+    let ι := internIn (progNames P)
+    let tcA := tablesComputedB ι fuel P
+    let tcB := tablesComputedB ι fuel P'
+    let nodupT := decide ((toTable ι P).types.Nodup)
+    let nodupR := decide (P.resources.toList.Nodup)
+    let callable := fnTypesCallableB P
+    let resnames := out.prog.resources.toList.all (fun n => P.resources.toList.contains n)
+    let presence := presenceKeptB out.ren P P'
+    let all := tcA && tcB && nodupT && nodupR && callable && resnames && presence
+    let lost := (progTags P).filter (fun c =>
+      match renameTag out.ren c with
+      | some c' => P.tagPresent c && !P'.tagPresent c'
+      | none => false)
+    let kind : Tag → String
+      | .int => "int" | .bin => "bin" | .ref => "ref" | .tuple t => s!"tuple{t}" | .fn _ => "fn"
+      | .builtin _ => "builtin" | .proc _ => "proc" | .res _ => "res"
+    let lostS := if lost.isEmpty then "-" else ",".intercalate (lost.map kind).eraseDups
+    s!"hyp all={all} lost-entries={lostS} tables-computed-A={tcA} tables-computed-B={tcB} types-nodup={nodupT} resources-nodup={nodupR} fn-types-callable={callable} resource-names={resnames} presence-kept={presence}"
+
+
 end C10
